@@ -242,7 +242,10 @@ def check(pid, tier, seed, update_expected=False):
                     hr = r['harness'].get(h)
                     oid = 'kani%s:%s' % ('[nobatch]' if g.get('no_default') else ('[ptr16]' if g.get('ptr16') else ''), h)
                     if hr is None or hr['status'] is None:
-                        return undecided(pid, tier, seed, t0, 'kani harness %s produced no verdict' % h, r['raw_tail'])
+                        # no verdict for this harness (time-out, tool failure): the property is undecided unless another
+                        # obligation of this run fails with a verdict
+                        deferred.append('kani harness %s produced no verdict (time-out or tool failure)' % h)
+                        continue
                     isb = h in g.get('bounded', {})
                     ok = hr['status'] == 'SUCCESSFUL'
                     if not ok and hr['failed_checks']:
@@ -255,7 +258,8 @@ def check(pid, tier, seed, update_expected=False):
                         else:
                             hr['failed_checks'] = mine_fc
                     if ok and hr['cover_total'] and hr['cover_satisfied'] < hr['cover_total']:
-                        return undecided(pid, tier, seed, t0, 'vacuity guard: cover in %s unsatisfied (%d/%d)' % (h, hr['cover_satisfied'], hr['cover_total']))
+                        deferred.append('vacuity guard: cover in %s unsatisfied (%d/%d)' % (h, hr['cover_satisfied'], hr['cover_total']))
+                        continue
                     rec = {'id': oid, 'backend': 'kani/cbmc', 'ok': ok, 'time_s': hr['time_s'], 'checks': hr['checks'],
                            'covers': '%d/%d' % (hr['cover_satisfied'], hr['cover_total'])}
                     if isb:
@@ -266,7 +270,8 @@ def check(pid, tier, seed, update_expected=False):
                     if not ok:
                         only_unwind = hr['failed_checks'] and all('unwinding' in f['desc'] for f in hr['failed_checks'])
                         if only_unwind and h not in K.get('nonterm', []):
-                            return undecided(pid, tier, seed, t0, 'unwinding bound too small in %s' % h)
+                            deferred.append('unwinding bound too small in %s' % h)
+                            continue
                         # (for a termination harness on a concrete input, running into the unwinding bound IS the violation)
                         fl = {'kind': 'kani', 'id': oid, 'harness': h, 'group': g, 'detail': hr['failed_checks'][:6]}
                         # one replayed input per run is enough to show the violation; further failing harnesses are listed
